@@ -142,7 +142,8 @@ def cases(shard, rnd):
                         if a1 >= a2:
                             continue
                         for v1, v2 in ((s_, s_), (s_, s_ + 'x'),
-                                       (s_, s_.upper()), (s_[:100], s_)):
+                                       (s_, s_.upper()), (s_[:100], s_),
+                                       (None, s_), (s_, None), ('', s_)):
                             others = gf.assignment(rnd, spec)
                             others[a1], others[a2] = v1, v2
                             yield {'t': 'full', 'method': m, 'arg': a1,
@@ -160,6 +161,20 @@ def cases(shard, rnd):
             for v in extra:
                 yield {'t': 'fixed', 'method': m, 'arg': a, 'v': v,
                        'phase': rnd.choice(['construct', 'mutate'])}
+            # values of every other type (a message that formats the
+            # offending value must still be a ValueError's message)
+            for v in [(), (0,), (0, 0), ('', ''), [], [0], {}, {'a': 1},
+                      b'', b'0', 1.5, 0.0, -0.0, 1j, True, None,
+                      frozenset(), range(2), 2**70, '%s', '{}', '%(x)s']:
+                if isinstance(v, bytes) and '-bb' in (
+                        common.CONFIG.get('pyflags') or ()):
+                    # python -bb turns the comparison of a caller's bytes
+                    # with the fixed str value into an error: that is the
+                    # interpreter flag doing what it was asked to do
+                    continue
+                for phase in ('construct', 'mutate'):
+                    yield {'t': 'fixed', 'method': m, 'arg': a, 'v': v,
+                           'phase': phase}
         for m, a, fixed in FIXED_ARGS:
             if isinstance(fixed, bool):
                 vals = [False, True]
@@ -169,6 +184,12 @@ def cases(shard, rnd):
                 vals = ['', '0', '1', ' ', 'x', '00', 'amq', '\x00', 'é',
                         'None', 'False']
             for v in vals:
+                if isinstance(v, bytes) and '-bb' in (
+                        common.CONFIG.get('pyflags') or ()):
+                    # python -bb turns the comparison of a caller's bytes
+                    # with the fixed str value into an error: that is the
+                    # interpreter flag doing what it was asked to do
+                    continue
                 for phase in ('construct', 'mutate'):
                     yield {'t': 'fixed', 'method': m, 'arg': a, 'v': v,
                            'phase': phase}
